@@ -42,9 +42,9 @@
 #define MS 1000000LL
 static struct S_class_2eFIX8_3a_3aTimer the_timer; static struct S_struct_2eMon the_mon;
 /* ---- virtual clock */
-static int64_t g_now; static int n_read, n_sleep, in_run, in_clear, stopped;
+static int64_t g_now; static int n_read, n_sleep, in_run, in_clear, stopped, run_base;      /* run_base: readings taken before the loop started (by schedule()) */
 int64_t cx_read[STEPS + NEV + 2]; uint32_t cx_ms[3]; uint8_t cx_rep[3], cx_res[STEPS + 1], cx_runid[STEPS + 1]; int32_t cx_nruns, cx_clear_at = -1, cx_bad;
-static void tick(void) { if (in_run && n_read + n_sleep >= STEPS && !stopped) { stopped = 1; vf_tm_stop(&the_timer); } }
+static void tick(void) { if (in_run && n_read + n_sleep - run_base >= STEPS && !stopped) { stopped = 1; vf_tm_stop(&the_timer); } }
 uint64_t x__ZNSt6chrono3_V212system_clock3nowEv(void)
 {
   int64_t d = nondet_i64(); VF_ASSUME(d >= 0 && d <= 400 * MS);
@@ -138,7 +138,7 @@ int main(void)
   for (int j = 0; j < NEV; j++) pending[j] = 0;
   cleared = 1;
 #else
-  in_run = 1;
+  in_run = 1; run_base = n_read + n_sleep;
   vf_tm_run(&the_timer);
   in_run = 0;
 #endif
